@@ -271,8 +271,12 @@ fn guard<T>(f: impl FnOnce() -> T) -> Result<T, String> {
     })
 }
 
+/// panics of the real code are caught and reported; VERIF_PANIC_TRACE=1 keeps the default hook
+/// (message + location on stderr)
 fn quiet_panics() {
-    std::panic::set_hook(Box::new(|_| {}));
+    if std::env::var("VERIF_PANIC_TRACE").is_err() {
+        std::panic::set_hook(Box::new(|_| {}));
+    }
 }
 
 // ---------------------------------------------------------------------------------------------
@@ -821,8 +825,8 @@ const B8: [i128; 18] = [-128, -127, -126, -100, -8, -3, -2, -1, 0, 1, 2, 3, 7, 8
 const B8_SMALL: [i128; 10] = [-128, -127, -3, -1, 0, 1, 2, 8, 126, 127];
 const STRIDES8: [u64; 9] = [1, 2, 3, 4, 5, 7, 8, 16, 64];
 
-/// all well-formed 8-bit intervals with bounds in `bounds` and strides in STRIDES8 (0 for singletons),
-/// plus `nrand` seeded random (start, stride, count) intervals
+/// all well-formed 8-bit intervals with bounds in `bounds` and strides in STRIDES8 (0 for singletons) or
+/// equal to end - start, plus `nrand` seeded random (start, stride, count) intervals
 fn ivs8(bounds: &[i128], nrand: usize, rng: &mut Rng) -> Vec<Dom> {
     let mut out: Vec<Dom> = Vec::new();
     for &s in bounds {
@@ -834,6 +838,10 @@ fn ivs8(bounds: &[i128], nrand: usize, rng: &mut Rng) -> Vec<Dom> {
                     if (e - s) % st as i128 == 0 {
                         out.push(Dom::new(8, s, e, st));
                     }
+                }
+                // two members: stride == end - start (strides up to 255, beyond the signed maximum)
+                if !STRIDES8.contains(&((e - s) as u64)) {
+                    out.push(Dom::new(8, s, e, (e - s) as u64));
                 }
             }
         }
@@ -874,14 +882,20 @@ fn pick_stride(w: u32, rng: &mut Rng) -> u64 {
 
 /// seeded random well-formed interval of width w in {16, 32, 64}: at most 64 members, placed near a
 /// boundary (signed min / max, 0 / -1, +-2^(w/2), +-2^(w/2-1), byte boundary) or, one time in eight,
-/// a "large" interval between two boundary-biased values (its members are sampled)
+/// a "large" interval between two boundary-biased values (its members are sampled), or, one time in
+/// sixteen, the two-member interval {p, q} with stride q - p
 fn gen_wide(w: u32, rng: &mut Rng) -> Dom {
     let (min, max) = (-(1i128 << (w - 1)), (1i128 << (w - 1)) - 1);
     loop {
         let stride = pick_stride(w, rng);
-        if rng.next() % 8 == 0 {
+        let mode = rng.next() % 16;
+        if mode < 3 {
             let (p, q) = (sval(w, rng.interesting(w)), sval(w, rng.interesting(w)));
             let (s, e) = (p.min(q), p.max(q));
+            if mode == 2 {
+                // two members, stride == end - start (may exceed the signed maximum of the width)
+                return Dom::new(w, s, e, (e - s) as u64);
+            }
             let e = s + ((e - s) / stride as i128) * stride as i128;
             return Dom::new(w, s, e, if s == e { 0 } else { stride });
         }
@@ -1465,8 +1479,42 @@ fn enumerate(twin: &str, case: Option<&str>, seed: u64, visit: &mut dyn FnMut(&C
 // entry points
 // ---------------------------------------------------------------------------------------------
 
+/// `c02.selftest`: the reference against itself on 8 bit (no real code involved):
+/// nth/count enumerate exactly the values accepted by in_gamma; subset_of agrees with enumeration.
+fn selftest(seed: u64) -> Stats {
+    let mut st = Stats::default();
+    let mut rng = Rng(seed);
+    let l = ops8(&B8, 300, &mut rng);
+    let bad = |st: &mut Stats, what: &str, a: &Dom, b: Option<&Dom>| {
+        st.fails += 1;
+        if st.first.is_none() {
+            st.first = Some(json!({"input": {"fn": "c02.selftest", "w": 8, "a": a.json(), "b": b.map(|b| b.json())}, "observed": what, "expected": "reference is self-consistent"}));
+        }
+    };
+    for a in &l {
+        st.evals += 1;
+        let by_gamma: Vec<u128> = (0..256u128).filter(|v| a.d.has(*v)).collect();
+        let mut by_nth: Vec<u128> = a.m.to_vec();
+        by_nth.sort();
+        if !a.d.inv() || by_gamma != by_nth || a.d.count() != by_nth.len() as u128 {
+            bad(&mut st, "members enumerated by nth() differ from in_gamma()", &a.d, None);
+        }
+        for b in &l {
+            st.evals += 1;
+            let by_enum = b.m.iter().all(|v| a.d.has(*v));
+            if b.d.subset_of(&a.d) != by_enum {
+                bad(&mut st, "subset_of differs from enumeration", &a.d, Some(&b.d));
+            }
+        }
+    }
+    st
+}
+
 fn drive(twin: &str, case: Option<&str>, seed: u64, stop_at_first: bool) -> Stats {
     quiet_panics();
+    if twin == "c02.selftest" {
+        return selftest(seed);
+    }
     let mut st = Stats::default();
     let dump: u64 = std::env::var("VERIF_DUMP").ok().and_then(|s| s.parse().ok()).unwrap_or(0);
     enumerate(twin, case, seed, &mut |c| {
